@@ -138,7 +138,10 @@ Resolve(Q, exp) ==
       sol2(j) == IF sol(ps[j].n) # <<>> THEN sol(ps[j].n)
                  ELSE IF ps[j].b # <<>> THEN <<Subst(ps[j].b[1], m1)>>          \* unconstrained: fixed to its (instantiated) declared bound
                  ELSE IF P.lang \in {"java", "groovy"} THEN <<TopT>> ELSE <<>>
+      ms == [x \in {ps[j].n : j \in DOMAIN ps} |-> LET j == CHOOSE j \in DOMAIN ps : ps[j].n = x IN IF sol2(j) = <<>> THEN Bot ELSE sol2(j)[1]]
   IN [ok |-> \A j \in DOMAIN ps : sol2(j) # <<>>,
+      \* the constructor arguments must fit the fields under the solution (it may come from the expected type alone)
+      argsOK |-> Len(c.fields) = Len(Q.a) => \A j \in DOMAIN Q.a : Sub(StripW(Q.a[j]), StripW(Subst(c.fields[j].t, ms))),
       t |-> Cls(Q.n, [j \in DOMAIN ps |-> IF sol2(j) = <<>> THEN Bot ELSE sol2(j)[1]]),
       src |-> [j \in DOMAIN ps |-> IF {b \in fromExp : b[1] = Unk(ps[j].n)} # {} THEN "exp" ELSE IF {b \in fromArgs : b[1] = Unk(ps[j].n)} # {} THEN "args" ELSE "none"]]
 SetToSeqBy(S) == [q \in 1..Cardinality(S) |-> CHOOSE x \in S : Cardinality({y \in S : y < x}) = q - 1]
@@ -161,12 +164,13 @@ ResolveF(Q, exp) ==
                  ELSE IF P.lang = "kotlin" THEN <<>>
                  ELSE IF tps[j].a # <<>> THEN <<Subst(tps[j].a[1], m1)>> ELSE <<TopT>>
       m2 == [x \in {Unk(tps[j].n) : j \in DOMAIN tps} |-> LET j == CHOOSE j \in DOMAIN tps : Unk(tps[j].n) = x IN IF sol2(j) = <<>> THEN Bot ELSE sol2(j)[1]]
-  IN [ok |-> \A j \in DOMAIN tps : sol2(j) # <<>>, t |-> Subst(retT, m2)]
+  IN [ok |-> \A j \in DOMAIN tps : sol2(j) # <<>>, t |-> Subst(retT, m2),
+      argsOK |-> \A j \in pairs : Sub(StripW(Q.a[2 * j + 2]), StripW(Subst(Q.a[2 * j + 1], m2)))]
 RECURSIVE Assignable(_, _)
 Assignable(S, T) ==
   IF S.k = "U" THEN Assignable(S.a[1], T) /\ Assignable(S.a[2], T)
-  ELSE IF S.k = "Q" THEN (LET R == Resolve(S, <<T>>) IN R.ok /\ Sub(R.t, StripW(T)))
-  ELSE IF S.k = "QF" THEN (LET R == ResolveF(S, <<T>>) IN R.ok /\ Sub(StripW(R.t), StripW(T)))
+  ELSE IF S.k = "Q" THEN (LET R == Resolve(S, <<T>>) IN R.ok /\ R.argsOK /\ Sub(R.t, StripW(T)))
+  ELSE IF S.k = "QF" THEN (LET R == ResolveF(S, <<T>>) IN R.ok /\ R.argsOK /\ Sub(StripW(R.t), StripW(T)))
   ELSE Sub(StripW(S), StripW(T))
 Settle(S) == IF S.k = "Q" THEN Resolve(S, <<>>).t ELSE IF S.k = "QF" THEN ResolveF(S, <<>>).t ELSE S     \* consumer without an expected type
 
